@@ -11,6 +11,7 @@ import sys
 import mongomock
 
 import common
+import gen
 import hist
 import histcheck
 import wire
@@ -74,6 +75,18 @@ def probe(runner, op):
     res['distinct'] = attempt(lambda: len(twin(docs).distinct('_id', F())))
     res['find_one'] = attempt(lambda: twin(docs).find_one(F()) is not None)
     res['n_docs'] = len(docs)
+    # the same through a collection handle carrying its own tz_aware codec options
+    from mongomock.codec_options import CodecOptions
+
+    def aware():
+        return twin(docs).with_options(codec_options=CodecOptions(tz_aware=True))
+    res['aware'] = {
+        'find': attempt(lambda: [d['_id'] for d in aware().find(F())]),
+        'count': attempt(lambda: aware().count_documents(F())),
+        'match': attempt(lambda: [d['_id'] for d in aware().aggregate([{'$match': F()}])]),
+        'find_one': attempt(lambda: aware().find_one(F()) is not None),
+        'delete_many': attempt(lambda: aware().delete_many(F()).deleted_count),
+    }
     return res
 
 
@@ -82,7 +95,13 @@ class Gen10(hist.HistGen):
 
     def history(self, n):
         ops = [self.op() for _ in range(n)]
-        ops.append(['find', self.filt()])
+        f = self.filt()
+        if self.r.random() < 0.3:
+            # a filter on a date the documents may hold
+            d = self.r.choice(gen.DATES)
+            f = {self.r.choice(['a', 'b', 'c', 'd']): self.r.choice(
+                [d, {'$gte': d}, {'$in': [d]}, {'$lte': d}])}
+        ops.append(['find', f])
         return ops
 
 
@@ -143,12 +162,25 @@ def oracle(history, steps):
 
 def check_agree(i, pr):
     fails = []
-    kinds = {k: v[0] for k, v in pr.items() if k != 'n_docs'}
+    aw = pr.get('aware')
+    if aw and pr['find'][0] == 'ok':
+        ids = pr['find'][1]
+        exp = {'find': ids, 'count': len(ids), 'match': ids, 'find_one': len(ids) > 0,
+               'delete_many': len(ids)}
+        for k, v in exp.items():
+            if aw[k] != ('ok', v):
+                fails.append((i, 'aware-handle-disagree', 'through a tz_aware collection handle '
+                              '%s gives %r where the plain find selects %r' % (k, aw[k], ids)))
+    kinds = {k: v[0] for k, v in pr.items() if k not in ('n_docs', 'aware')}
     if len(set(kinds.values())) > 1:
         others = {v for k, v in kinds.items() if k != 'match'}
         if pr['n_docs'] == 0 and others == {'raised'} and kinds['match'] == 'ok':
             return [(i, 'match-empty-novalidate', 'on an empty collection $match accepts a filter '
                      'every other entry point rejects: %r' % (pr,))]
+        oks = {k for k, v in kinds.items() if v == 'ok'}
+        if oks == {'update_one'}:
+            return [(i, 'lazy-raise', 'update_one stops at its first match and never evaluates the '
+                     'filter on the later document every other entry point raises on: %r' % (pr,))]
         return [(i, 'raise-disagree', 'entry points disagree on raising: %r' % (pr,))]
     if pr['find'][0] != 'ok':
         return fails
